@@ -4,6 +4,7 @@ import (
 	"fmt"
 	"strconv"
 	"strings"
+	"time"
 )
 
 // ---- E2: stateless depth-first search over scheduler choices with deviation bounding ----------
@@ -51,6 +52,10 @@ type DFS struct {
 	visited map[uint64][][2]int
 	Pruned  int
 	States  int
+
+	// Deadline (optional): stop this unit at that time even if the worker has budget left.
+	Deadline time.Time
+	TimedOut bool
 
 	Executions int
 	Violating  int
@@ -133,9 +138,10 @@ func (d *DFS) explore(prefix []int, usedP, usedO, depth int) {
 	if d.capped {
 		return
 	}
-	if w.OutOfTime() {
-		w.Cap(fmt.Sprintf("%s: time budget hit during DFS (preemption bound %d, %d executions done); lower bounds are complete", d.Unit, d.Preempt, d.Executions))
+	if w.OutOfTime() || (!d.Deadline.IsZero() && time.Now().After(d.Deadline)) {
+		w.Cap(fmt.Sprintf("%s: time budget hit during DFS (preemption bound %d, %d executions done on shard %d); lower bounds are complete", d.Unit, d.Preempt, d.Executions, w.ShardI))
 		d.capped = true
+		d.TimedOut = true
 		return
 	}
 	if d.Violating >= d.MaxViol {
